@@ -239,7 +239,7 @@ def gen_builds(rep, tier):
             for ps in range(1, n + 2):
                 yield (1, [list(r) for r in rows], ps, 10, q1, 'partial-nan-1d')
     # (ii) d = 2, 3 (and some d = 1 with larger n): seeded stream
-    nbuilds = 9000 if quick else 400000
+    nbuilds = 6500 if quick else 150000
     nmax = 12 if quick else 60
     for i in range(nbuilds):
         d = rng.choice([2, 2, 3, 3, 1])
@@ -252,7 +252,13 @@ def gen_builds(rep, tier):
             ps = rng.choice([0, -3])      # coerced to 1 by the constructor
         p = rng.choice([1, 2, 10, 31])
         nq = 40 if n <= 12 else 25
-        yield (d, rows, ps, p, U.rand_queries(rng, d, rows, nq), 'stream')
+        queries = U.rand_queries(rng, d, rows, nq)
+        if rng.random() < 0.2:
+            # the same configuration elsewhere on the line: negative / large coordinates
+            a, b0 = rng.choice([1, 4, 1024]), rng.choice([-7, -1000, 2 ** 20, -3])
+            rows = [[a * x + b0 for x in r] for r in rows]
+            queries = [[a * x + b0 for x in q] for q in queries]
+        yield (d, rows, ps, p, queries, 'stream')
     # reversed boxes (min > max): outside the theorems' hypothesis, model comparison only
     for i in range(150 if quick else 3000):
         d = rng.choice([1, 2])
@@ -265,15 +271,35 @@ def run(rep):
     import time as _t
     tier = getattr(rep, 'tier_run', rep.tier)
     rep.rule = ('index builds over boxes with integer corners in {0..3}^d (zero extent, duplicates, '
-                'shared edges/corners, all identical, fully / partially NaN rows at any position), '
-                'page_size in 1..n+1 and {n-1,n,n+1,512}, p in {1,2,10,31}; queries on the half grid '
-                '-0.5..3.5 (ties with every row side, degenerate, disjoint, all-covering, reversed); '
-                'd=1 exhaustive for n<=3 (n=4: multisets in quick, sequences in thorough) x every '
-                'page size x all 81 queries; d=2,3 seeded stream, ~40 queries per build; node ranges '
-                'for every (n,page_size), n<=200.  A query is non-trivial when it matches some but '
-                'not all finite rows; distinct = distinct (d, page_size, rows, query)')
+                'shared edges/corners, all identical, fully / partially NaN rows at any position; one '
+                'build in five moved by x -> a*x+b to negative / large coordinates), page_size in '
+                '1..n+1 and {n-1,n,n+1,512,0,-3}, p in {1,2,10,31}; queries on the half grid -0.5..3.5 '
+                '(ties with every row side, degenerate, disjoint, all-covering, reversed); d=1 '
+                'exhaustive for n<=3 (n=4: multisets in quick, sequences in thorough) x every page '
+                'size x all 81 queries; d=1,2,3 seeded stream with n<=12 (thorough n<=60), ~40 queries '
+                'per build; node ranges for every (n,page_size), n<=200; reversed rows (min>max) for '
+                'model agreement only.  One evaluation = one query on one build (three results), or '
+                'one (n,page_size) of the range check.  A query is non-trivial when it matches some '
+                'but not all finite rows; distinct = distinct (d, page_size, rows, query)')
     full, one = [], []          # builds compared through rtree_case_packed / rtree_case_1d
     nb = 0
+    seen = set()
+
+    def flush(group, fn, cty):
+        # kernel evaluation of the model on the accumulated builds (bounded memory)
+        if not group:
+            return
+        bad = C.coq_mismatches(IMPORTS, fn, cty, PRES_TY, [g[1] for g in group], [g[2] for g in group],
+                               shard=max(40, min(400, len(group) // (3 * C.NCPU) + 1)), timeout=1500)
+        for i in bad:
+            if len(seen) > 6:
+                break
+            sig, what, rp = diagnose(Build(*group[i][0]).run())
+            if sig in seen:
+                continue
+            seen.add(sig)
+            rep.violation(sig, what, rp)
+        del group[:]
     for d, rows, ps, p, queries, tag in gen_builds(rep, tier):
         b = Build(d, rows, ps, p, queries, tag).run()
         nb += 1
@@ -309,21 +335,14 @@ def run(rep):
         else:
             full.append((light, b.case_full(), b.result_packed()))
         del b
+        if len(full) >= 8000:
+            flush(full, PFN, CASE_TY)
+        if len(one) >= 12000:
+            flush(one, P1FN, CASE1_TY)
+    flush(one, P1FN, CASE1_TY)
+    flush(full, PFN, CASE_TY)
     rep.extra['builds'] = nb
-    rep.extra['t_python_s'] = round(_t.time() - rep.t0, 1)
     rep.extra['cpu_python_s'] = round(_t.process_time(), 1)
-    seen = set()
-    for group, fn, cty in ((one, P1FN, CASE1_TY), (full, PFN, CASE_TY)):
-        bad = C.coq_mismatches(IMPORTS, fn, cty, PRES_TY, [g[1] for g in group], [g[2] for g in group],
-                               shard=max(50, min(400, len(group) // (3 * C.NCPU) + 1)), timeout=1500)
-        for i in bad:
-            sig, what, rp = diagnose(Build(*group[i][0]).run())
-            if sig in seen:
-                continue
-            seen.add(sig)
-            rep.violation(sig, what, rp)
-            if len(seen) > 6:
-                break
     rep.extra['t_coq_s'] = round(_t.time() - rep.t0, 1)
     run_ranges(rep, tier)
     rep.extra['t_ranges_s'] = round(_t.time() - rep.t0, 1)
